@@ -155,6 +155,29 @@ class TimedMon(LifeCounting):
                                    {"mailbox": list(key), "sweep_at": s, "diff": rows_diff(mb, ma)}))
         return out
 
+    def late_add(self):
+        for c, g in sorted(self.conns.items()):
+            if g.alive and g.sub is not None:
+                return ("add", c, "late", "ff", "late-id")
+        return None
+
+    def check_late_add(self, ev, rs, world):
+        """C12: 'a connected client keeps its channel alive indefinitely' - and it is still served"""
+        out = []
+        c = ev[1]
+        g = self.conns[c]
+        key = g.sub
+        want = self.subscribers(key)
+        r = rs[-1]
+        got = sorted(x for x, f in r.frames if f.get("type") == "message")
+        self.total_evals += 1
+        if r.exc is not None or has_error(r.frames_of(c)) or got != want:
+            out.append(self.Vp("C12", "connected-subscriber-no-longer-served-after-sweeps",
+                               {"mailbox": list(key), "subscribed": want, "received": got, "step": r.brief(),
+                                "sweeps": self.sweeps[-8:]},
+                               {"refused": bool(has_error(r.frames_of(c)))}))
+        return out
+
     def finish(self, world):
         """after all clients left and E + 2P passed: the store is empty (C13)"""
         out = []
@@ -234,7 +257,8 @@ def scenarios(tier, cfg, with_faults=False):
     for label, items, final_drop in skeletons(tier):
         for pl in scen.placements(len(items), grid):
             tl = [(grid[i], items[k]) for k, i in enumerate(pl)]
-            out.append(scen.Scenario(cfg, tl, E + 2 * P + 1.0, label=label, final_dropall=final_drop))
+            out.append(scen.Scenario(cfg, tl, (E + 2 * P + 1.0) if final_drop else (E + 4 * P + 1.0), label=label,
+                                     final_dropall=final_drop))
     if with_faults:
         # one transient failure on the first channel-db access of each sweep in the horizon, one at a time
         base = [s for s in out if s.label in ("claim-then-leave", "old-and-new-side-by-side")]
